@@ -263,10 +263,19 @@ class Provenance(Monitor):
         ctx = self.ctx
         ctx.count('C08.rel_merge')
         want = {}
+        conflict = later_smaller = False
         for s in args:
             for c, d in s.sources.get(DEPTHS, {}).items():
+                if id(c) in want and d != want[id(c)][1]:
+                    conflict = True
+                    if d < want[id(c)][1]:
+                        later_smaller = True
                 if id(c) not in want or d < want[id(c)][1]:
                     want[id(c)] = (c, d)
+        if conflict:
+            ctx.count('C08.merge_callable_reached_at_two_depths')
+        if later_smaller:
+            ctx.count('C08.merge_smaller_depth_in_later_input')
         got = {id(c): d for c, d in value.sources[DEPTHS].items()}
         if got != {k: d for k, (c, d) in want.items()}:
             ctx.violation('C08', 'Provenance', 'merge-depths',
